@@ -55,7 +55,8 @@ static inline void *ir2c_new(u64 n) { __CPROVER_assert(n <= IR2C_MAXALLOC, "allo
 static inline void ir2c_delete(void *p) { if (p) free((char*)p - __CPROVER_POINTER_OFFSET(p)); }
 #else
 static inline void *ir2c_new(u64 n) { void *p = malloc(n); __CPROVER_assume(p != 0); return p; }
-#define IR2C_NEW_TYPED(T, n) ((u8*)({ u64 n_ = (n); T *p_ = malloc(sizeof(T) * (n_ / sizeof(T))); __CPROVER_assume(p_ != 0); p_; }))
+/* the element type is recovered from the bitcast that follows operator new; with an array-new cookie that is the cookie's type, so the size is rounded UP to whole elements */
+#define IR2C_NEW_TYPED(T, n) ((u8*)({ u64 n_ = (n); T *p_ = malloc(sizeof(T) * ((n_ + sizeof(T) - 1) / sizeof(T))); __CPROVER_assume(p_ != 0); p_; }))
 static inline void ir2c_delete(void *p) { free(p); }
 #endif
 #define ir2c_crash() do { __CPROVER_assert(0, "MCRASH reached"); __CPROVER_assume(0); } while(0)
